@@ -1303,3 +1303,135 @@ Proof.
   - change (128 ^ Z.of_nat 9)%Z with 9223372036854775808%Z. lia.
   - reflexivity.
 Qed.
+
+(* ------------------------------------------------------------------ *)
+(** * Fixed-width round trip *)
+
+Lemma le_enc_length n : forall v, length (le_enc n v) = n.
+Proof. induction n as [|n IH]; intros v; cbn; [reflexivity|]. rewrite IH. reflexivity. Qed.
+
+Lemma le_val_le_enc n : forall v, le_val (le_enc n v) = v mod 256 ^ N.of_nat n.
+Proof.
+  induction n as [|n IH]; intros v.
+  - cbn. change (256 ^ 0) with 1. rewrite N.mod_1_r. reflexivity.
+  - cbn [le_enc le_val]. rewrite IH, b2n_n2b, N.mod_mod by discriminate.
+    replace (N.of_nat (S n)) with (N.succ (N.of_nat n)) by lia.
+    rewrite N.pow_succ_r'. rewrite N.mod_mul_r by (try apply N.pow_nonzero; discriminate).
+    reflexivity.
+Qed.
+
+Lemma read_un_enc n bigend v rest : v < 256 ^ N.of_nat n ->
+  read_un n bigend (enc_fixed n bigend v ++ rest) = Ok (v, rest).
+Proof.
+  intros H. unfold read_un, read_bytes, enc_fixed.
+  destruct bigend.
+  - rewrite take_app by (rewrite rev_length; apply le_enc_length). cbn [bind].
+    unfold be_val. rewrite rev_involutive, le_val_le_enc, N.mod_small by assumption. reflexivity.
+  - rewrite take_app by apply le_enc_length. cbn [bind].
+    rewrite le_val_le_enc, N.mod_small by assumption. reflexivity.
+Qed.
+
+Lemma pow256 n : 256 ^ n = 2 ^ (8 * n).
+Proof. rewrite N.pow_mul_r. reflexivity. Qed.
+
+(* ------------------------------------------------------------------ *)
+(** * Layout round trip *)
+
+Lemma read_prefix_enc dbg bigend p len rest : len < prefix_bound p ->
+  read_prefix dbg bigend p (enc_prefix p bigend len ++ rest) = Ok (len, rest).
+Proof.
+  destruct p; cbn [read_prefix enc_prefix prefix_bound]; intros H.
+  - rewrite (read_u8_un_be bigend). apply read_un_enc. exact H.
+  - apply read_un_enc. exact H.
+  - apply read_un_enc. exact H.
+  - apply read_uleb128_enc. exact H.
+Qed.
+
+Lemma read_layout_enc dbg bigend l d payload rest :
+  raw_fits l d -> enc_layout l bigend d = Some payload ->
+  read_layout dbg bigend l (payload ++ rest) = Ok (d, rest).
+Proof.
+  destruct l as [n| | |p| | |]; destruct d as [v|z|b|]; cbn [raw_fits enc_layout read_layout];
+    intros F E; try contradiction; try discriminate; inversion E; subst; clear E.
+  - rewrite read_un_enc; [reflexivity|]. rewrite pow256, N2Nat.id. exact F.
+  - rewrite read_uleb128_enc by exact F. reflexivity.
+  - rewrite read_sleb128_enc by exact F. reflexivity.
+  - unfold read_block. rewrite <- app_assoc, read_prefix_enc by exact F. cbn [bind].
+    rewrite split_n_app. reflexivity.
+  - rewrite <- app_assoc. cbn [app]. rewrite read_cstr_app by exact F. reflexivity.
+  - reflexivity.
+Qed.
+
+(* ------------------------------------------------------------------ *)
+(** * DW_FORM_indirect hops *)
+
+Lemma read_u16leb_code f rest :
+  read_uleb128_u16 (enc_uleb (form_code f) ++ rest) = Ok (form_code f, rest).
+Proof.
+  apply (read_u16leb_app _ _ [] rest). destruct f; reflexivity.
+Qed.
+
+Lemma parse_form_hops : forall depth fuel dbg e spec f data,
+  (depth <= fuel)%nat -> depth <> O ->
+  parse_form fuel dbg e spec DW_FORM_indirect (enc_hops depth f ++ data)
+  = parse_form (fuel - depth) dbg e spec (form_code f) data.
+Proof.
+  induction depth as [|depth IH]; intros fuel dbg e spec f data L NZ; [congruence|].
+  destruct fuel as [|fuel]; [lia|].
+  rewrite parse_form_indirect.
+  destruct depth as [|depth].
+  - cbn [enc_hops]. rewrite read_u16leb_code. cbn [bind]. replace (S fuel - 1)%nat with fuel by lia. reflexivity.
+  - change (enc_hops (S (S depth)) f) with (enc_uleb indirect_code ++ enc_hops (S depth) f).
+    rewrite <- app_assoc.
+    change indirect_code with (form_code F_indirect). rewrite read_u16leb_code. cbn [bind].
+    change (form_code F_indirect) with DW_FORM_indirect.
+    rewrite IH by lia. reflexivity.
+Qed.
+
+Lemma enc_hops_length depth f : (depth <= length (enc_hops depth f))%nat.
+Proof.
+  induction depth as [|depth IH]; [cbn; lia|].
+  destruct depth as [|depth].
+  - cbn [enc_hops]. destruct f; vm_compute; repeat constructor.
+  - change (enc_hops (S (S depth)) f) with (enc_uleb indirect_code ++ enc_hops (S depth) f).
+    rewrite app_length. change (length (enc_uleb indirect_code)) with 1%nat. lia.
+Qed.
+
+(* ------------------------------------------------------------------ *)
+(** * Theorem 3: decode (encode v) = v for every form *)
+
+Definition addr_size_ok (e : enc) : Prop := valid_size (address_size e) = true.
+
+Lemma attr_roundtrip dbg e name implicit depth f d payload v rest :
+  f <> F_indirect ->
+  addr_size_ok e ->
+  (f = F_implicit_const -> depth = O) ->
+  raw_fits (form_layout f e) d ->
+  enc_layout (form_layout f e) (be e) d = Some payload ->
+  form_value e name implicit f d = Some v ->
+  parse_attribute dbg e (mkSpec name (spec_form depth f) implicit) (enc_hops depth f ++ payload ++ rest)
+  = Ok (v, rest).
+Proof.
+  intros Hf Ha Hi Fit Enc Val.
+  assert (Hc : form_code f <> DW_FORM_indirect) by (intros C; apply form_code_indirect in C; congruence).
+  assert (Direct : forall fuel spec, at_name spec = name -> at_implicit spec = implicit ->
+            (f = F_implicit_const -> at_form spec = DW_FORM_implicit_const) ->
+            parse_form fuel dbg e spec (form_code f) (payload ++ rest) = Ok (v, rest)).
+  { intros fuel spec Hn Him Hic.
+    rewrite parse_form_direct by assumption. rewrite parse_direct_known by assumption.
+    unfold decode_by_layout.
+    assert (G : form_guard e spec f = None).
+    { unfold addr_size_ok in Ha. destruct f; cbn [form_guard]; try reflexivity.
+      - rewrite Ha. reflexivity.
+      - rewrite Ha. cbn [negb]. rewrite andb_false_r. reflexivity.
+      - rewrite Hic by reflexivity. reflexivity. }
+    rewrite G, (read_layout_enc _ _ _ _ _ _ Fit Enc). cbn [bind]. rewrite Hn, Him, Val. reflexivity. }
+  unfold parse_attribute. cbn [at_form].
+  destruct depth as [|depth].
+  - cbn [spec_form enc_hops app]. apply Direct; try reflexivity. intros ->. reflexivity.
+  - change (spec_form (S depth) f) with DW_FORM_indirect.
+    rewrite parse_form_hops.
+    + apply Direct; try reflexivity. intros E. specialize (Hi E). discriminate.
+    + pose proof (enc_hops_length (S depth) f). rewrite app_length. lia.
+    + discriminate.
+Qed.
